@@ -12,7 +12,15 @@ STRENGTHENED = {
     "C02-m2": "accessor/billing_df case", "C05-m1": "history/* cases (4 predict calls on one model object)",
     "C05-m2": "dataclass/daily/elec case (hourly electricity feed through DailyReportingData)", "C06-m2": "inf cell state in part (a)",
     "C10-m2": "temperature NaN states in frame/negative", "C19-m1": "zones east of UTC in the aggregation cases",
+    "C01-m4": "hourly/stored case (hourly family was outside C01)", "C02-m3": "interleave/* cases (fit of another model object)",
+    "C02-m4": "hourly-data/ctor case", "C04-m4": "zones with the same winter offset (Denver/Phoenix) in the timezone catalogue",
+    "C05-m3": "hourly/* cases (symbolic usage readings through the real HourlyModel._predict)", "C06-m3": "sub-model layouts in part (a)",
+    "C06-m4": "span with an absent calendar day before the transition day in part (b)", "C09-m4": "a 25-hour day in the quick tier",
+    "C10-m3": "frame/edges case", "C10-m4": "frame/hourly-sdf case", "C12-m3": "*/bounds lemma on the real bound-update functions",
+    "C12-m4": "tidd/uncertainty case", "C16-m4": "NaN states for predicted in reporting/*", "C18-m3": "second call with the caller's endpoint list",
+    "C19-m4": "own symbols for the data object's usage column",
 }
+NOTES = {"C06-m4": "patch rebased onto the repaired _get_dst_indices (commit 79324c4b changed the lines it touches); the sub-agent's original diff is kept as original_base.diff"}
 rows = []
 for diff in sorted(glob.glob("/tmp/wt/C*.mut*.diff")):
     m = re.match(r"/tmp/wt/(C\d+)\.mut(\d+)\.diff", diff)
@@ -45,6 +53,11 @@ for diff in sorted(glob.glob("/tmp/wt/C*.mut*.diff")):
                                how="tools/verify_mutant_a.sh in a scratch worktree under /tmp/wt; check run by tools/verify_mutant_b.sh with the patch applied to /repo and reverted afterwards"),
                 caught=("after strengthening: + " + STRENGTHENED[sid]) if sid in STRENGTHENED else "by the check as built",
                 checks=checks, detected=any(v["exit"] == 1 and v["violation_lines"] > 0 for v in checks.values()))
+    if sid in NOTES:
+        meta["note"] = NOTES[sid]
+        ob = f"/tmp/wt/{P}.mut{N}.original_base.diff"
+        if os.path.exists(ob):
+            shutil.copy(ob, os.path.join(d, "original_base.diff"))
     json.dump(meta, open(os.path.join(d, "meta.json"), "w"), indent=1)
     rows.append((sid, P, {c: (v["exit"], v["violation_lines"]) for c, v in checks.items()}, meta["detected"]))
 for r in rows:
